@@ -179,7 +179,7 @@ func c06FuncMap(c *Ctx, ht *types.Named) map[string]*ssa.Function {
 			}
 			v := unwrap(mu.Value, true)
 			if mc, ok := v.(*ssa.MakeClosure); ok {
-				out[k] = mc.Fn.(*ssa.Function)
+				out[k] = boundTarget(mc.Fn.(*ssa.Function))
 			} else if f, ok := v.(*ssa.Function); ok {
 				out[k] = f
 			}
@@ -225,7 +225,7 @@ func c06Bindings(c *Ctx, ht *types.Named, funcs map[string]*ssa.Function) {
 	if f := funcs["CellsOf"]; f != nil {
 		ok := false
 		eachInstr(f, func(in ssa.Instruction) {
-			if cal := staticCallee(in); cal != nil && cal.Name() == "Cells" && len(f.Params) > 0 && callCommon(in).Args[0] == ssa.Value(f.Params[0]) {
+			if cal := staticCallee(in); cal != nil && cal.Name() == "Cells" && argParam(f, 0) != nil && callCommon(in).Args[0] == argParam(f, 0) {
 				ok = true
 			}
 		})
@@ -236,7 +236,7 @@ func c06Bindings(c *Ctx, ht *types.Named, funcs map[string]*ssa.Function) {
 		for _, ret := range returnsOf(f) {
 			if b, isB := results(ret)[0].(*ssa.BinOp); isB && b.Op == token.ADD {
 				k, isK := constInt(b.Y)
-				ok = isK && k == 1 && b.X == ssa.Value(f.Params[0])
+				ok = isK && k == 1 && argParam(f, 0) != nil && b.X == argParam(f, 0)
 			}
 		}
 		r.Check("R06.4", FuncName(f), "OnePlus(i) is i+1", f.Pos(), ok, "")
@@ -248,7 +248,7 @@ func c06Bindings(c *Ctx, ht *types.Named, funcs map[string]*ssa.Function) {
 		for _, ret := range returnsOf(f) {
 			if call, isCall := results(ret)[0].(*ssa.Call); isCall {
 				g, _ := loadedField(call.Call.Value)
-				if g == gen && len(call.Call.Args) == 2 && call.Call.Args[0] == ssa.Value(f.Params[0]) {
+				if g == gen && len(call.Call.Args) == 2 && argParam(f, 0) != nil && call.Call.Args[0] == argParam(f, 0) {
 					if cf, _ := loadedField(call.Call.Args[1]); cf == ctx {
 						ok = true
 					}
@@ -258,27 +258,8 @@ func c06Bindings(c *Ctx, ht *types.Named, funcs map[string]*ssa.Function) {
 		r.Check("R06.4", FuncName(f), "RowClass(i) calls the generator once with (i, the registered context)", f.Pos(), ok, "")
 	}
 	if toStrings != nil {
-		p := c.Idx().proverFor(toStrings)
-		ok := false
-		eachInstr(toStrings, func(in ssa.Instruction) {
-			st, isSt := in.(*ssa.Store)
-			if !isSt {
-				return
-			}
-			ia, isIA := st.Addr.(*ssa.IndexAddr)
-			if !isIA {
-				return
-			}
-			call, isCall := st.Val.(*ssa.Call)
-			if !isCall || !isCellSource(call.Call.StaticCallee()) || call.Call.StaticCallee().Name() != "String" {
-				return
-			}
-			sl, idx := sectionOfAny(call.Call.Args[0])
-			if sl == ssa.Value(toStrings.Params[0]) && idx == ia.Index && isFullRangeIndex(c, toStrings, idx, sl) {
-				if ms, isMS := p.resolve(ia.X).(*ssa.MakeSlice); isMS && p.linOf(ms.Len).String() == p.lenOf(sl).String() {
-					ok = true
-				}
-			}
+		ok := elementwiseMap(c, toStrings, func(call *ssa.Call) bool {
+			return isCellSource(call.Call.StaticCallee()) && call.Call.StaticCallee().Name() == "String"
 		})
 		r.Check("R06.3", FuncName(toStrings), "yields one string per cell, in order: r[i] = cells[i].String() for every i", toStrings.Pos(), ok, "")
 	}
@@ -529,4 +510,111 @@ func htmlContextOf(before string) string {
 		return "text of <" + strings.ToLower(m[1]) + ">"
 	}
 	return "text"
+}
+
+// boundTarget: for the synthetic wrapper behind a method value (x.m), the method itself.
+func boundTarget(f *ssa.Function) *ssa.Function {
+	if f == nil || !strings.Contains(f.Synthetic, "bound method") {
+		return f
+	}
+	var target *ssa.Function
+	eachInstr(f, func(in ssa.Instruction) {
+		if cal := staticCallee(in); cal != nil {
+			target = cal
+		}
+	})
+	if target == nil {
+		return f
+	}
+	return target
+}
+
+// argParam: the k-th declared parameter of f, not counting a method's receiver.
+func argParam(f *ssa.Function, k int) ssa.Value {
+	if f.Signature.Recv() != nil {
+		k++
+	}
+	if k >= len(f.Params) {
+		return nil
+	}
+	return f.Params[k]
+}
+
+// elementwiseMap: fn(xs) returns a slice with exactly one element per element of its first slice parameter, in
+// order, the i-th being conv(&xs[i]):
+//   r := make([]T, len(xs)); for i := range xs { r[i] = conv(xs[i]) }; return r          (indexed form)
+//   r := make([]T, 0, n) | nil; for i := range xs { r = append(r, conv(xs[i])) }; return r  (append form)
+func elementwiseMap(c *Ctx, fn *ssa.Function, isConv func(*ssa.Call) bool) bool {
+	if len(fn.Params) == 0 {
+		return false
+	}
+	p := c.Idx().proverFor(fn)
+	src := ssa.Value(fn.Params[0])
+	ok := false
+	convOf := func(v ssa.Value) ssa.Value { // conv(xs[idx]) -> idx
+		call, isCall := v.(*ssa.Call)
+		if !isCall || call.Call.StaticCallee() == nil || !isConv(call) || len(call.Call.Args) == 0 {
+			return nil
+		}
+		sl, idx := sectionOfAny(call.Call.Args[0])
+		if sl != src || !isFullRangeIndex(c, fn, idx, sl) {
+			return nil
+		}
+		return idx
+	}
+	rets := returnsOf(fn)
+	if len(rets) != 1 {
+		return false
+	}
+	result := results(rets[0])[0]
+	eachInstr(fn, func(in ssa.Instruction) {
+		switch x := in.(type) {
+		case *ssa.Store:
+			ia, isIA := x.Addr.(*ssa.IndexAddr)
+			if !isIA {
+				return
+			}
+			if idx := convOf(x.Val); idx != nil && idx == ia.Index && !condInsideLoop(in.Block()) {
+				if ms, isMS := p.resolve(ia.X).(*ssa.MakeSlice); isMS && p.linOf(ms.Len).String() == p.lenOf(src).String() && p.resolve(result) == ssa.Value(ms) {
+					ok = true
+				}
+			}
+		case *ssa.Call:
+			base, elems, isApp := appendedElems(x)
+			if !isApp || len(elems) != 1 || convOf(elems[0]) == nil || condInsideLoop(in.Block()) {
+				return
+			}
+			// accumulator: phi(empty, this append), returned after the loop; no other append in the function
+			phi, isPhi := base.(*ssa.Phi)
+			if !isPhi || len(phi.Edges) != 2 {
+				return
+			}
+			empty, self := false, false
+			for _, e := range phi.Edges {
+				if e == ssa.Value(x) {
+					self = true
+				} else if isEmptySlice(p, e) {
+					empty = true
+				}
+			}
+			nApp := 0
+			eachInstr(fn, func(in2 ssa.Instruction) {
+				if _, isA := isBuiltinCall(valueOf(in2), "append"); isA {
+					nApp++
+				}
+			})
+			if empty && self && nApp == 1 && result == ssa.Value(phi) {
+				ok = true
+			}
+		}
+	})
+	return ok
+}
+
+func isEmptySlice(p *prover, v ssa.Value) bool {
+	if isNil(v) {
+		return true
+	}
+	l := p.lenOf(v)
+	return l.isConst() && l.k == 0
 }
